@@ -203,4 +203,59 @@ def judgeAll (T : Tables) (stream : Bytes) (outs : List Bytes) (flags : List (Bo
     | none, none => .ok
   | v => v
 
+/-! ## "No input changes the answers given to other lines"
+
+A request line is *neutral* when its action is not one of the requests a module carries out
+(`read` polls the hardware, `change` writes a parameter, `do` runs a command — these are meant to
+change what later requests are answered).  Everything else — `describe`, `*IDN?`, `ping`, `help`,
+`activate`, `deactivate`, `logging`, blank lines, unknown actions, undecodable bytes — must leave the
+answers to all other lines as they are, on this and on every other connection of the node. -/
+
+/-- the line asks for nothing a module carries out -/
+def Neutral (T : Tables) (line : Bytes) : Bool := !(T.stateActions.contains (reqOf T line).action)
+
+/-- request lines with a mark: `true` = the line stays, `false` = the line is left out -/
+abbrev Marked := List (Bytes × Bool)
+
+def allLines (m : Marked) : List Bytes := m.map Prod.fst
+def keptLines (m : Marked) : List Bytes := (m.filter Prod.snd).map Prod.fst
+
+/-- only neutral lines are left out -/
+def OnlyNeutralDropped (T : Tables) (m : Marked) : Prop := ∀ p ∈ m, p.2 = false → Neutral T p.1 = true
+
+/-- of one answer per line of `allLines m`, those to the lines that stay -/
+def keptOf {α : Type} : Marked → List α → List α
+  | [], _ => []
+  | _, [] => []
+  | (_, true) :: m, a :: as => a :: keptOf m as
+  | (_, false) :: m, _ :: as => keptOf m as
+
+/-- the reply lines among the emitted lines, one slot per request line: the first line that fits the
+oldest unanswered request is its reply (as `scan`); `none` = no reply found -/
+def pairReplies (T : Tables) : List Bytes → List Bytes → List (Option Bytes)
+  | reqs, [] => reqs.map (fun _ => none)
+  | [], _ :: _ => []
+  | r :: rs, o :: os => if fitsLineB T r o then some o :: pairReplies T rs os else pairReplies T (r :: rs) os
+
+inductive IndepVerdict where
+  | ok
+  /-- the case leaves out line `k`, which is not neutral (a defect of the case, not of the code) -/
+  | notNeutral (k : Nat)
+  /-- the answer to the `k`-th line that stays is another one when the marked lines are left out -/
+  | changed (k : Nat)
+deriving DecidableEq, Repr
+
+/-- judge one connection of a pair of runs on two fresh nodes: `outsAll` was emitted for all the lines,
+`outsKept` for the lines that stay.  The emitted lines come canonicalised by the harness (time stamps
+masked, error reports reduced to the class name). -/
+def judgeIndep (T : Tables) (m : Marked) (outsAll outsKept : List Bytes) : IndepVerdict :=
+  match m.findIdx? (fun p => !p.2 && !Neutral T p.1) with
+  | some k => .notNeutral k
+  | none =>
+    let a := keptOf m (pairReplies T (allLines m) outsAll)
+    let b := pairReplies T (keptLines m) outsKept
+    match (a.zip b).findIdx? (fun p => p.1 != p.2) with
+    | some k => .changed k
+    | none => if a.length = b.length then .ok else .changed (min a.length b.length)
+
 end Frappy.Spec.C07
